@@ -227,3 +227,46 @@ func TestExploreJoinPOR(t *testing.T) {
 	}
 	t.Logf("buggy join with sleep sets: %d of %d runs fail (%d cut), e.g. %s", len(bad2), runs2, cut2, bad2[0])
 }
+
+// TestSharedPointsKeepBothOrders: two tasks count down with a decrement followed by a separate read (the atomic
+// AddInt32 / LoadInt32 pair). The schedule in which both decrement before either reads must be among those the
+// reducing explorer keeps, although the two tasks touch no channel.
+func TestSharedPointsKeepBothOrders(t *testing.T) {
+	e := &PORExplorer{}
+	bothSawZero, onlyLast := 0, 0
+	for {
+		s := New(nil)
+		s.ChooseT = e.Chooser()
+		zeros := 0
+		s.Run(func() {
+			pending := 2
+			for i := 0; i < 2; i++ {
+				s.Go(func() {
+					s.Shared()
+					pending--
+					v := Step(s, func() int { return pending })
+					if v == 0 {
+						zeros++
+					}
+				})
+			}
+		})
+		if !s.Abandoned {
+			switch zeros {
+			case 2:
+				bothSawZero++
+			case 1:
+				onlyLast++
+			default:
+				t.Fatalf("no task saw zero")
+			}
+		}
+		if !e.Next() || e.Runs > 10000 {
+			break
+		}
+	}
+	if bothSawZero == 0 || onlyLast == 0 {
+		t.Fatalf("explored %d runs: both-saw-zero %d, only-the-last %d (both kinds of schedule have to be kept)", e.Runs, bothSawZero, onlyLast)
+	}
+	t.Logf("%d runs: both saw zero in %d, only the last one in %d", e.Runs, bothSawZero, onlyLast)
+}
